@@ -8,6 +8,7 @@ import (
 	"fmt"
 	"strings"
 	"testing"
+	"time"
 
 	"github.com/go-python/gpython/py"
 	"pgregory.net/rapid"
@@ -213,6 +214,24 @@ func TestC14(t *testing.T) {
 		prog := c14Prelude + c14Subs + "for s in " + c14List(short[i:j]) + ":\n    ops2(s)\n"
 		runC14(r, prog, "startend", nil)
 	}
+	// ... and strings of length 3 (quick: every 5th)
+	{
+		var three []string
+		for i, s3 := range c14Strings(3) {
+			if len([]rune(s3)) == 3 && (r.Thorough() || i%5 == int(r.Seed%5)) {
+				three = append(three, s3)
+			}
+		}
+		for i := 0; i < len(three); i += 40 {
+			job++
+			if job%r.NShards != r.Shard {
+				continue
+			}
+			j := minInt(i+40, len(three))
+			prog := c14Prelude + c14Subs + "RNG = [None, -2, 0, 1, 2, 3]\nfor s in " + c14List(three[i:j]) + ":\n    ops2(s)\n"
+			runC14(r, prog, "startend3", nil)
+		}
+	}
 	// comparisons between all pairs
 	cmpSet := c14Strings(r.Pick(1, 2))
 	if !r.Thorough() {
@@ -235,6 +254,25 @@ func TestC14(t *testing.T) {
 		runC14(r, prog, "ordchr", nil)
 		c14RoundTrip(r)
 	}
+	// repr round trip over the code space: quick = the BMP and every 17th astral code point, thorough = everything
+	{
+		type span struct{ lo, hi, stride int }
+		spans := []span{{0, 0x4000, 1}, {0x4000, 0x8000, 1}, {0x8000, 0xc000, 1}, {0xc000, 0x10000, 1}}
+		if r.Thorough() {
+			for lo := 0x10000; lo < 0x110000; lo += 0x8000 {
+				spans = append(spans, span{lo, lo + 0x8000, 1})
+			}
+		} else {
+			spans = append(spans, span{0x10000, 0x110000, 17}, span{0xe0000, 0xe1000, 1}, span{0x1f000, 0x20000, 1})
+		}
+		for _, sp := range spans {
+			job++
+			if job%r.NShards != r.Shard {
+				continue
+			}
+			c14Sweep(r, sp.lo, sp.hi, sp.stride)
+		}
+	}
 	r.SetExhaustive(true)
 	// longer random strings
 	rapid.Check(t, func(rt *rapid.T) {
@@ -253,7 +291,12 @@ func TestC14(t *testing.T) {
 			}
 		}
 		s := sb.String()
-		prog := c14Prelude + c14Subs + "ops(" + PyStr(s) + ")\nrt(" + PyStr(s) + ")\n"
+		// start/end arguments with substrings taken from the string itself
+		rs := []rune(s)
+		p1 := g.N(len(rs))
+		p2 := minInt(len(rs), p1+g.Int(1, 3))
+		subs2 := "SUBS2 = [" + PyStr(string(rs[p1:p2])) + ", " + PyStr(string(rs[g.N(len(rs))])) + ", " + PyStr(string(rs[len(rs)-1:])) + "]\nRNG = [None, " + fmt.Sprint(g.Int(-len(rs)-1, len(rs)+1)) + ", " + fmt.Sprint(g.Int(0, len(rs))) + ", " + fmt.Sprint(g.Int(1, 4)) + "]\n"
+		prog := c14Prelude + c14Subs + subs2 + "ops(" + PyStr(s) + ")\nops2(" + PyStr(s) + ")\nrt(" + PyStr(s) + ")\n"
 		before := r.Violations()
 		runC14(r, prog, "random", nil)
 		r.Sample("rnd"+s, "ops("+PyStr(s)+")")
@@ -319,6 +362,82 @@ func c14RoundTrip(r *Run) {
 		}
 	}
 	r.Sample("rt", "rt("+vals[len(vals)/2]+")")
+}
+
+// c14Sweep: repr round trip of every code point in [lo, hi) taken stride apart, alone and followed by 'a1'
+// (an escape must not swallow what follows it): inside gpython, and gpython's repr text evaluated by CPython.
+func c14Sweep(r *Run, lo, hi, stride int) {
+	prog := fmt.Sprintf(`_bad = []
+_reprs = []
+_ns = []
+for n in range(%d, %d, %d):
+    if 0xd800 <= n < 0xe000:
+        continue
+    c = chr(n)
+    r = repr(c)
+    r2 = repr(c + 'a1')
+    r3 = repr(('7' + c, [c]))
+    if eval(r) != c or eval(r2) != c + 'a1' or eval(r3) != ('7' + c, [c]) or len(eval(r2)) != 3:
+        _bad.append(n)
+    _ns.append(n)
+    _reprs.append(r2)
+`, lo, hi, stride)
+	g := RunProgram(prog, RunOpts{Vars: []string{"_bad", "_reprs", "_ns"}, Timeout: 120 * time.Second})
+	r.Class("codepoint-sweep")
+	if g.Panic != "" || g.Exc != "" || g.Timeout {
+		r.Mismatch(&Case{Kind: "c14rt", Sig: "rt:sweep-run:" + g.Panic + g.Exc, Program: prog, Expected: "runs", Actual: g.Panic + g.Exc + " " + g.ExcMsg})
+		return
+	}
+	ns := SplitTop(g.Obs["_ns"])
+	for _, n := range ns {
+		r.Count("sweep:"+n, true)
+	}
+	if bad := SplitTop(g.Obs["_bad"]); len(bad) > 0 {
+		n := strings.TrimPrefix(bad[0], "i")
+		small := c14Prelude + "rt(chr(" + n + "))\nrt(chr(" + n + ") + 'a1')\nrt(('7' + chr(" + n + "), [chr(" + n + ")]))\n"
+		r.Mismatch(&Case{Kind: "c14rt", Sig: "rt:gpython:codepoint", Program: small, Expected: "eval(repr(x)) == x for every code point", Actual: fmt.Sprintf("%d code points fail, first U+%s (decimal)", len(bad), n),
+			Detail: "eval(repr(chr(n) + 'a1')) inside gpython"})
+		return
+	}
+	// CPython evaluates gpython's repr texts
+	reprs := SplitTop(g.Obs["_reprs"])
+	if len(reprs) != len(ns) {
+		r.Infra("sweep: %d reprs for %d code points", len(reprs), len(ns))
+	}
+	var sb strings.Builder
+	sb.WriteString("_res = []\nR = [")
+	for i, e := range reprs {
+		if i > 0 {
+			sb.WriteString(", ")
+		}
+		sb.WriteString(PyStr(DecodeStr(e)))
+	}
+	sb.WriteString("]\nNS = [")
+	for i, n := range ns {
+		if i > 0 {
+			sb.WriteString(", ")
+		}
+		sb.WriteString(strings.TrimPrefix(n, "i"))
+	}
+	sb.WriteString("]\nfor n, t in zip(NS, R):\n    try:\n        ok = eval(t) == chr(n) + 'a1'\n    except Exception:\n        ok = False\n    if not ok:\n        _res.append(n)\n")
+	orc, err := GetOracle()
+	if err != nil {
+		r.Infra("%v", err)
+	}
+	resp, err := orc.Run(sb.String(), c14Vars, "", "exec")
+	if err != nil {
+		r.Infra("%v", err)
+	}
+	if resp.Obs["_res"] != "l[]" || resp.ExcName() != "" {
+		first := ""
+		if l := SplitTop(resp.Obs["_res"]); len(l) > 0 {
+			first = strings.TrimPrefix(l[0], "i")
+		}
+		small := c14Prelude + "rt(chr(" + first + ") + 'a1')\n"
+		r.Mismatch(&Case{Kind: "c14rt", Sig: "rt:cpython:codepoint", Program: small, Expected: "CPython evaluates gpython's repr of every code point to that code point",
+			Actual: "failing code points (decimal): " + resp.Obs["_res"] + " exc=" + resp.ExcName()})
+	}
+	r.Sample("sweep", fmt.Sprintf("repr round trip of chr(n), chr(n)+'a1', ('7'+chr(n), [chr(n)]) for n in range(%d, %d, %d)", lo, hi, stride))
 }
 
 func c14RtKind(v string) string {
